@@ -776,7 +776,8 @@ func (st *state) applyDefaults(instancep reflect.Value, schema *Schema) (err err
 }
 
 // schemaHasDefaultsInProperties reports whether s or any descendant schema under
-// its Properties contains a default. Only walks Properties to match ApplyDefaults semantics.
+// its non-required Properties contains a default. Only walks the Properties that
+// ApplyDefaults would fill, to match its semantics.
 func schemaHasDefaultsInProperties(s *Schema) bool {
 	if s == nil {
 		return false
@@ -785,7 +786,11 @@ func schemaHasDefaultsInProperties(s *Schema) bool {
 		return true
 	}
 	if s.Properties != nil {
-		for _, ss := range s.Properties {
+		for prop, ss := range s.Properties {
+			// ApplyDefaults ignores defaults on and below required properties.
+			if slices.Contains(s.Required, prop) {
+				continue
+			}
 			if schemaHasDefaultsInProperties(ss) {
 				return true
 			}
